@@ -14,19 +14,25 @@ theorem genProg_real : genProg = realProg := by decide
 theorem callbacks_shape :
     Gen.HealthDispatch.onCheck = [.readID, .stopTimeout, .armTimeout, .checkAndSend] ∧
     Gen.HealthDispatch.onTimeoutFn = [.sendTimeout] ∧
-    Gen.HealthDispatch.timeoutChanCap = 0 ∧ Gen.HealthDispatch.respChanCap = 0 := by decide
+    Gen.HealthDispatch.timeoutChanCap = 0 ∧ Gen.HealthDispatch.respChanCap = 0 ∧
+    Gen.HealthDispatch.timeoutCarriesID = true := by decide
 
+abbrev R0 : List Act := [.stopTimeout, .handle, .advance, .armCheck]
 abbrev R1 : List Act := [.handle, .advance, .armCheck]
 abbrev R2 : List Act := [.advance, .armCheck]
 abbrev R3 : List Act := [.armCheck]
+abbrev T0 : List Act := [.stopCheck, .sessionOnTimeout, .handleNet, .advance, .armCheck]
 abbrev T1 : List Act := [.sessionOnTimeout, .handleNet, .advance, .armCheck]
 abbrev T2 : List Act := [.handleNet, .advance, .armCheck]
 
 structure Inv (s : D) : Prop where
-  phase : s.todo = [] ∨ s.todo = R1 ∨ s.todo = R2 ∨ s.todo = R3 ∨ s.todo = T1 ∨ s.todo = T2
+  phase : s.todo = [] ∨ s.todo = R0 ∨ s.todo = R1 ∨ s.todo = R2 ∨ s.todo = R3 ∨ s.todo = T0 ∨ s.todo = T1 ∨ s.todo = T2
   cur_id : s.todo = [] → s.exited = false → s.currentID = s.checkID
-  busy : s.todo ≠ [] → s.tmo = none ∧ s.armed = false
-  parked : s.parked = []
+  busy : s.todo ≠ [] → s.armed = false
+  /-- only between the receive of an answer and the Stop that follows it can the timeout timer run while the loop is busy -/
+  busy_tmo : s.todo ≠ [] → s.todo ≠ R0 → s.tmo = none
+  /-- fired timers waiting on c.timeout: of performed checks, never of a future one, and not of the check whose timer runs -/
+  parked_ok : ∀ k ∈ s.parked, k ∈ s.issued ∧ k ≤ s.checkID ∧ (k = s.checkID → s.tmo = none)
   tmo_cur : ∀ k, s.tmo = some k → k = s.checkID ∧ s.armed = false
   tmo_issued : ∀ k, s.tmo = some k → k ∈ s.issued
   log_lt : ∀ e ∈ s.log, e.1 < s.checkID ∨ (s.todo = R2 ∧ e.1 = s.checkID)
@@ -35,17 +41,22 @@ structure Inv (s : D) : Prop where
   issued_sorted : s.issued.Pairwise (· > ·)
   complete : ∀ i ∈ s.issued, i < s.checkID → i ∈ ids s
   logged : s.todo = R2 → s.checkID ∈ ids s
-  cur_ok : s.todo = R1 ∨ s.todo = T1 ∨ s.todo = T2 → s.cur.1 = s.checkID ∧ s.cur ∈ s.outcomes ∧ s.cur.1 ∈ s.issued
-  cur_tmo : s.todo = T1 ∨ s.todo = T2 → s.cur.2 = .timeout
+  cur_ok : s.todo = R0 ∨ s.todo = R1 ∨ s.todo = T0 ∨ s.todo = T1 ∨ s.todo = T2 →
+    s.cur.1 = s.checkID ∧ s.cur ∈ s.outcomes ∧ s.cur.1 ∈ s.issued
+  cur_tmo : s.todo = T0 ∨ s.todo = T1 ∨ s.todo = T2 → s.cur.2 = .timeout
   log_out : ∀ e ∈ s.log, e ∈ s.outcomes
   log_issued : ∀ e ∈ s.log, e.1 ∈ s.issued
   inflight_issued : ∀ i ∈ s.inflight, i ∈ s.issued
   exit_todo : s.exited = true → s.todo = []
   issued_r3 : s.todo = R3 → ∀ i ∈ s.issued, i < s.checkID
+  /-- the loop waits in its select for a performed check: that check's timeout is still to come (timer running, or its
+  expiry parked on the channel) - the id comparison never drops the timeout of the awaited check -/
+  pending : s.todo = [] → s.exited = false → s.checkID ∈ s.issued → s.tmo = some s.checkID ∨ s.checkID ∈ s.parked
 
 macro "inv_tac" : tactic =>
   `(tactic| (constructor <;>
-      simp only [realProg, perform, ids, List.foldl, List.pairwise_cons, List.map_cons, List.mem_cons, List.mem_map] at * <;> grind [= List.pairwise_cons]))
+      simp only [realProg, perform, ids, List.foldl, List.pairwise_cons, List.map_cons, List.mem_cons, List.mem_map,
+        List.mem_append, List.mem_singleton] at * <;> grind [= List.pairwise_cons]))
 
 theorem inv_init : Inv (D.init realProg) := by
   constructor <;> simp [D.init, realProg, D.zero, perform, ids]
@@ -53,12 +64,12 @@ theorem inv_init : Inv (D.init realProg) := by
 /-- the deferred exit block touches only the two timers -/
 theorem inv_exit (s : D) (h : Inv s) (ht : s.todo = []) :
     Inv (realProg.onExit.foldl perform { s with stopReq := true, exited := true }) := by
-  obtain ⟨h1, h2, h3, h4, h5, h6, h7, h8, h9, h10, h11, h12, h13, h14, h15, h16, h17, h18, h19⟩ := h
+  obtain ⟨h1, h2, h3, h4, h5, h6, h7, h8, h9, h10, h11, h12, h13, h14, h15, h16, h17, h18, h19, h20, h21⟩ := h
   inv_tac
 
 theorem inv_fireCheck (s : D) (h : Inv s) (hx : s.exited = false) : Inv (step realProg s .fireCheck) := by
   have h0 := h
-  obtain ⟨h1, h2, h3, h4, h5, h6, h7, h8, h9, h10, h11, h12, h13, h14, h15, h16, h17, h18, h19⟩ := h
+  obtain ⟨h1, h2, h3, h4, h5, h6, h7, h8, h9, h10, h11, h12, h13, h14, h15, h16, h17, h18, h19, h20, h21⟩ := h
   simp only [step, hx]
   by_cases ha : s.armed = true
   · simp only [ha, if_true]
@@ -70,17 +81,19 @@ theorem inv_stop (s : D) (h : Inv s) (hx : s.exited = false) : Inv (step realPro
   by_cases ht : s.todo = []
   · simpa [ht] using inv_exit s h ht
   · have h0 := h
-    obtain ⟨h1, h2, h3, h4, h5, h6, h7, h8, h9, h10, h11, h12, h13, h14, h15, h16, h17, h18, h19⟩ := h
+    obtain ⟨h1, h2, h3, h4, h5, h6, h7, h8, h9, h10, h11, h12, h13, h14, h15, h16, h17, h18, h19, h20, h21⟩ := h
     have : s.todo.isEmpty = false := by cases hs : s.todo <;> simp_all
     simp only [this]
     inv_tac
 
 theorem inv_act (s : D) (h : Inv s) (hx : s.exited = false) : Inv (step realProg s .act) := by
   have h0 := h
-  obtain ⟨h1, h2, h3, h4, h5, h6, h7, h8, h9, h10, h11, h12, h13, h14, h15, h16, h17, h18, h19⟩ := h
+  obtain ⟨h1, h2, h3, h4, h5, h6, h7, h8, h9, h10, h11, h12, h13, h14, h15, h16, h17, h18, h19, h20, h21⟩ := h
   simp only [step, hx]
-  rcases h1 with ht | ht | ht | ht | ht | ht
+  rcases h1 with ht | ht | ht | ht | ht | ht | ht | ht
   · simpa [actStep, ht] using h0
+  · simp only [actStep, ht, finish, perform]
+    inv_tac
   · simp only [actStep, ht, finish, perform]
     inv_tac
   · simp only [actStep, ht, finish, perform]
@@ -95,29 +108,45 @@ theorem inv_act (s : D) (h : Inv s) (hx : s.exited = false) : Inv (step realProg
     inv_tac
   · simp only [actStep, ht, finish, perform]
     inv_tac
+  · simp only [actStep, ht, finish, perform]
+    inv_tac
 
 theorem inv_recvTimeout (s : D) (h : Inv s) (hx : s.exited = false) : Inv (step realProg s .recvTimeout) := by
-  have hp := h.parked
-  simpa [step, hx, hp] using h
+  have h0 := h
+  obtain ⟨h1, h2, h3, h4, h5, h6, h7, h8, h9, h10, h11, h12, h13, h14, h15, h16, h17, h18, h19, h20, h21⟩ := h
+  simp only [step, hx]
+  cases hp : s.parked with
+  | nil => simpa using h0
+  | cons k rest =>
+    by_cases ht : s.todo = []
+    · have hk := h5 k (by simp [hp])
+      simp only [idle, ht, List.isEmpty_nil, if_true]
+      by_cases hid : k = s.currentID
+      · simp only [realProg, hid, Bool.not_true, Bool.false_or, decide_true, if_true, enter, finish]
+        inv_tac
+      · simp only [realProg, hid, Bool.not_true, Bool.false_or, decide_false, Bool.false_eq_true, if_false, enter, finish]
+        by_cases hs : s.stopReq = true
+        · simp only [hs, if_true]
+          inv_tac
+        · simp only [hs]
+          inv_tac
+    · have : s.todo.isEmpty = false := by cases hs : s.todo <;> simp_all
+      simpa [idle, this] using h0
 
 theorem inv_fireTimeout (s : D) (h : Inv s) (hx : s.exited = false) : Inv (step realProg s .fireTimeout) := by
   have h0 := h
-  obtain ⟨h1, h2, h3, h4, h5, h6, h7, h8, h9, h10, h11, h12, h13, h14, h15, h16, h17, h18, h19⟩ := h
+  obtain ⟨h1, h2, h3, h4, h5, h6, h7, h8, h9, h10, h11, h12, h13, h14, h15, h16, h17, h18, h19, h20, h21⟩ := h
   simp only [step, hx]
   cases hk : s.tmo with
   | none => simpa using h0
   | some k =>
-    have ht : s.todo = [] := by
-      by_cases ht : s.todo = []
-      · exact ht
-      · have := (h3 ht).1; simp_all
-    simp only [idle, ht, List.isEmpty_nil, if_true, enter, realProg, finish, perform, Bool.false_eq_true, if_false]
+    simp only []
     inv_tac
 
 theorem inv_answer (s : D) (id : Nat) (hv : Bool) (h : Inv s) (hx : s.exited = false) :
     Inv (step realProg s (.answer id hv)) := by
   have h0 := h
-  obtain ⟨h1, h2, h3, h4, h5, h6, h7, h8, h9, h10, h11, h12, h13, h14, h15, h16, h17, h18, h19⟩ := h
+  obtain ⟨h1, h2, h3, h4, h5, h6, h7, h8, h9, h10, h11, h12, h13, h14, h15, h16, h17, h18, h19, h20, h21⟩ := h
   simp only [step, hx]
   by_cases hc : (idle s && s.inflight.contains id) = true
   · simp only [hc, if_true]
@@ -125,9 +154,9 @@ theorem inv_answer (s : D) (id : Nat) (hv : Bool) (h : Inv s) (hx : s.exited = f
       simp only [idle, Bool.and_eq_true, List.isEmpty_iff] at hc; exact hc.1
     have hm : id ∈ s.inflight := by
       simp only [Bool.and_eq_true, List.contains_iff_mem] at hc; exact hc.2
-    have he : ∀ i ∈ s.inflight.erase id, i ∈ s.issued := fun i hi => h17 i (List.mem_of_mem_erase hi)
+    have he : ∀ i ∈ s.inflight.erase id, i ∈ s.issued := fun i hi => h18 i (List.mem_of_mem_erase hi)
     by_cases hid : id = s.currentID
-    · simp only [hid, if_true, enter, realProg, finish, perform]
+    · simp only [hid, if_true, enter, realProg, finish]
       inv_tac
     · simp only [hid, if_false, enter, realProg, finish]
       by_cases hs : s.stopReq = true
